@@ -11,6 +11,7 @@ type Gen struct {
 	R        *lib.RNG
 	MaxDepth int  // tuple nesting
 	AllowOut bool // allow selected arrays inside tuples that are array elements
+	noSel    bool // (internal) nothing below may be selected
 	ncol     int
 	nname    int
 }
@@ -79,14 +80,21 @@ func (g *Gen) ty(depth int, noSelArr bool, budget int) *Ty {
 		if g.AllowOut {
 			inner = false
 		}
+		// a tuple ARRAY below a tuple that is an array element: its leaves would be
+		// selected arrays nested inside that tuple, so nothing inside may be selected
+		saved := g.noSel
+		if noSelArr && len(t.Dims) > 0 && !g.AllowOut {
+			g.noSel = true
+		}
 		nc := g.R.Range(1, 4)
 		for i := 0; i < nc; i++ {
 			t.Comps = append(t.Comps, g.ty(depth+1, inner, budget/4))
 		}
+		g.noSel = saved
 	} else {
 		ds := g.dims(budget)
 		sel := g.R.Chance(1, 2)
-		if noSelArr && len(ds) > 0 {
+		if (noSelArr && len(ds) > 0) || g.noSel {
 			sel = false
 		}
 		t = g.elem(sel)
